@@ -179,15 +179,16 @@ def permute_desc(d, pi):
 
 
 def delete_desc(d, w):
-    "candidate w deleted from the candidate list and every ranking; remaining candidates renumbered"
+    "candidate(s) w deleted from the candidate list and every ranking; remaining candidates renumbered"
+    ws = set(w) if isinstance(w, (list, tuple)) else {w}
     n = d['n']
-    keep = [c for c in range(1, n + 1) if c != w]
+    keep = [c for c in range(1, n + 1) if c not in ws]
     new = {c: i + 1 for i, c in enumerate(keep)}
     lines, mults = [], []
     for ln, m in zip(d['lines'], d['mults']):
         toks = []
         for tok in ln.split():
-            ids = [new[int(x)] for x in tok.split('=') if int(x) != w]
+            ids = [new[int(x)] for x in tok.split('=') if int(x) not in ws]
             if ids:
                 toks.append('='.join(str(x) for x in ids))
         if toks:
@@ -199,7 +200,7 @@ def delete_desc(d, w):
         tie = [tie[c - 1] for c in keep]
     else:
         tie = list(keep)
-    return dict(d, n=n - 1, lines=lines, mults=mults, names=names, tie=tie), new
+    return dict(d, n=n - len(ws), lines=lines, mults=mults, names=names, tie=tie), new
 
 
 # ---------------------------------------------------------------------------------------------------
@@ -237,9 +238,9 @@ def run_job(spec):
                     e.assume(z3.And(s_ >= 0, s_ <= m_))
         if mode == 'withdraw':
             # both elections must be valid: enough ballots remain once candidate w is gone
-            w = str(spec['w'])
-            keep = [U.ms[i] for i in U.kept if any(x != w for tok in U.lines[i].split() for x in tok.split('='))]
-            e.assume(z3.Sum(keep + [z3.IntVal(0)]) >= len(U.eligible) - 1)
+            ws = [str(x) for x in (spec['w'] if isinstance(spec['w'], list) else [spec['w']])]
+            keep = [U.ms[i] for i in U.kept if any(x not in ws for tok in U.lines[i].split() for x in tok.split('='))]
+            e.assume(z3.Sum(keep + [z3.IntVal(0)]) >= len(U.eligible) - len(ws))
         if mode == 'tie2':
             for t in extra_vars['u']:
                 e.assume(z3.And(t >= 1, t <= U.n))
@@ -366,12 +367,13 @@ def run_job(spec):
                     report_violation(e, 'renumbering:final-tallies', z3.Or(*conds) if conds else z3.BoolVal(False), [(base, dB, kw)])
             elif mode == 'withdraw':
                 w = spec['w']
-                dA = dict(base, extra=(base['extra'] + ' -%d' % w).strip())
+                wl = w if isinstance(w, list) else [w]
+                dA = dict(base, extra=(base['extra'] + ' ' + ' '.join('-%d' % x for x in wl)).strip())
                 EA = count(build_symbolic(dA))
                 dB, new = delete_desc(base, w)
                 EB = count(build_symbolic(dB))
                 reach('pair-compared')
-                kw = dict(cidmap={str(k): v for k, v in new.items()}, withdrawn=w)
+                kw = dict(cidmap={str(k): v for k, v in new.items()}, withdrawn=wl)
                 kind, x = compare_records(EA, EB, cidmap=new)
                 if kind == 'STRUCT':
                     report_violation(e, 'withdrawn-vs-deleted:' + x.split(':')[0][:40], None, [(dA, dB, kw)])
